@@ -148,6 +148,38 @@ func runC15(c *core.Ctx) {
 						c15CheckSS(c, inst, caseID, d, ss, snap)
 					}
 					c.Obs("striped_mismatches", 2)
+					// the same with an outer slice whose CAPACITY reaches the channel
+					// count (rows carved from a longer [][]T): a reslice of the
+					// argument must not make the call acceptable
+					if m < ch {
+						hidden := make([]int, ch-m+1)
+						for i := range hidden {
+							hidden[i] = 3
+						}
+						{
+							a := mon.NewArena(p.A, ch, 5, m+2)
+							w := a.Window(1, 4, 0, 0)
+							vis, all := p.B.MakeSSHidden(lens, hidden)
+							snap := c15FillSS(all, p.B, 6)
+							bsh := mon.ShapeOf(w.B)
+							inst := "ReadStriped[" + p.A.Name + "," + p.B.Name + "]"
+							mustPanic(inst, caseID+"/hidden-capacity", d, func() { p.ReadStriped(w.B, vis) })
+							c15After(c, inst, caseID, d, a, w, bsh)
+							c15CheckSS(c, inst, caseID, d, all, snap)
+						}
+						{
+							a := mon.NewArena(p.B, ch, 5, m+3)
+							w := a.Window(1, 4, 0, 0)
+							vis, all := p.A.MakeSSHidden(lens, hidden)
+							snap := c15FillSS(all, p.A, 7)
+							bsh := mon.ShapeOf(w.B)
+							inst := "WriteStriped[" + p.A.Name + "," + p.B.Name + "]"
+							mustPanic(inst, caseID+"/hidden-capacity", d, func() { p.WriteStriped(vis, w.B) })
+							c15After(c, inst, caseID, d, a, w, bsh)
+							c15CheckSS(c, inst, caseID, d, all, snap)
+						}
+						c.Obs("striped_mismatches_with_hidden_outer_capacity", 2)
+					}
 				}
 			}
 		}
@@ -246,6 +278,7 @@ func runC15(c *core.Ctx) {
 	c.Floor("append_mismatches", 13*24)
 	c.Floor("put_mismatches", 13*4*6)
 	c.Floor("striped_mismatches", 1000)
+	c.Floor("striped_mismatches_with_hidden_outer_capacity", 200)
 }
 
 func c15FillSS(ss dyn.SS, t *dyn.TypeOps, salt int) [][]dyn.Val {
